@@ -92,13 +92,20 @@ def rand_cfg(ctx, which, pts):
     rng = ctx.rng
     n = len(pts)
     if which == 'min_point_rdp':
-        return dict(m=rng.randrange(0, n + 2), ts=[rng.choice([0.5, 0.2, 0.1, 0.05, 0.01, 0.001, 0.0001]) for _ in range(rng.randrange(1, 4))])
+        # 0..3 thresholds (the empty list falls back to the fixed-size result), also values no refinement can meet and exact ties with observed global costs
+        pool = [0.5, 0.2, 0.1, 0.05, 0.01, 0.001, 0.0001, 1e-12, 2.0]
+        if rng.random() < 0.4:
+            pool = pool + [abs(float(rdpfam.tie_threshold(rng, pts, 'smape', 'grdp')[0])) or 0.01 for _ in range(3)]
+        return dict(m=rng.randrange(0, n + 2), ts=[rng.choice(pool) for _ in range(rng.randrange(0, 4))])
     cfg = dict(dist=rng.choice(rdpfam.DISTS), cost=rng.choice(rdpfam.COSTS), order=rng.choice(rdpfam.ORDERS))
     t, tie = rdpfam.tie_threshold(rng, pts, cfg['cost'], which)
     if cfg['cost'] == 'r2':
         t = min(t, 1.0)
     elif t <= 0:
         t = 0.01
+    if rng.random() < 0.08:
+        # a threshold no refinement can meet: the result must be ALL points
+        t = 1.0 if cfg['cost'] == 'r2' else 1e-13
     cfg['t'] = float(t)
     if which == 'mp_grdp':
         cfg['m'] = rng.randrange(0, n + 2)
@@ -112,7 +119,7 @@ def run(ctx):
     one(ctx, 'min_point_rdp', np.array([[0, 4], [1, 1], [2, 0.5], [3, 0.25], [5, 0]], float), dict(m=4, ts=[0.001, 0.1]), 'corpus')
     for pts in gen.exhaustive_small(4):
         if rng.random() < (0.3 if quick else 1.0):
-            w = rng.choice(['grdp', 'mp_grdp'])
+            w = rng.choice(['grdp', 'mp_grdp', 'min_point_rdp'])
             one(ctx, w, pts, rand_cfg(ctx, w, pts), 'exhaustive-small')
     for _ in range(450 if quick else 9000):
         pts, fam = rdpfam.random_points(ctx, 24 if quick else 64)
